@@ -1182,7 +1182,8 @@ class VM:
                 return obj.length * obj._element_size
             # Built-in typed array methods
             typed_array_methods = ["toString", "join", "subarray", "set"]
-            if key_str in typed_array_methods:
+            if key_str in typed_array_methods and not self._has_own_property(obj, key_str):
+                # (a property of the same name put on the typed array itself wins)
                 return self._make_typed_array_method(obj, key_str)
             # anything else: an ordinary (own or inherited) property, see below
 
